@@ -3,6 +3,8 @@ C10 / C11 check bodies: case generation, correspondence (real find_matches vs th
 driver_c10/driver_c11), and the two failing-input searches:
   C10: Lean `checkMatch` (the decidable embedding checker the theorems are about) on EVERY real match
   C11: every pattern derived from a program by the generalisation steps must match with the expected bindings
+       (plain, on decoy-rich programs, after an unparsable text on the same report, and as a sub-pattern that
+       inherits an earlier match and reuses its placeholder names)
 """
 import ast
 import itertools
@@ -401,7 +403,7 @@ def correspond(prop):
                 for sc, kw in sub_cases(rng, c, r, res.distribution):
                     do(sc, **kw)
             if (c.get("derived") is not None and r.exc is None and r.matches and r.api == "find_matches"
-                    and rng.random() < (0.12 if tier == "quick" else 0.05)):
+                    and r.program.size <= 200 and rng.random() < (0.10 if tier == "quick" else 0.05)):
                 # multi-step: the grader looks at some OTHER, unparsable text in between (same report), then asks
                 # the same question about the valid program again
                 stale.append(after_bad_parse(rng, c))
@@ -658,8 +660,12 @@ def search_c11(rng, tier, broken, corr):
     info = {"evaluations": 0, "distinct_nontrivial": 0,
             "rule": "oracle = a pattern derived from (a statement of) the program by wildcard / __expr__ replacement, "
                     "consistent _var_ renaming and sibling dropping must give >= 1 match, one of which binds every "
-                    "placeholder to what it replaced; a generalisation (same steps) of ANY pattern that matches must "
-                    "still match; non-trivial = derivation with at least one step",
+                    "placeholder to what it replaced - also on programs with DECOY statements (look-alike instances of "
+                    "one template interleaved in every order, a subsequence of a body kept), again after CAIT was given "
+                    "an unparsable text on the same report, and for sub-patterns searched inside / with an inherited "
+                    "match (CaitNode.find_matches, find_matches(use_previous=match)) whose placeholders are fresh or "
+                    "reuse names the inherited match bound; a generalisation (same steps) of ANY pattern that matches "
+                    "must still match; non-trivial = derivation with at least one step",
             "samples": [], "steps": {}, "skips": STATE.get("skips", {}),
             # derived cases for which the driver decided the hypotheses of c11_generalised_fragment_matches (genCase)
             "theorem_domain": {}}
